@@ -3,6 +3,9 @@ package main
 import (
 	"fmt"
 	"strings"
+	"time"
+
+	"github.com/fluffle/goirc/client"
 
 	"verif/harness/drv"
 	"verif/harness/gen"
@@ -167,8 +170,54 @@ func c02Inputs(c *Ctx) []string {
 	return inputs
 }
 
+// c02Stream: the same kinds of lines over a real connection, in batches followed by a sync marker: the client
+// must survive every line (no crash, connection keeps answering), lines that follow are still processed.
+func c02Stream(c *Ctx, inputs []string) {
+	sess, err := newSession(nil, func(cn *client.Conn) { cn.EnableStateTracking() })
+	if err != nil {
+		c.Res.Inconclusive++
+		return
+	}
+	defer sess.close()
+	sess.srv.SendLine(":irc.test 001 me :Welcome me!ident@host")
+	batch := 200
+	sent := 0
+	limit := c.Pick(6000, 60000)
+	extra := []string{":n!u@h PRIVMSG me :" + strings.Repeat("x", 5000), "@t=" + strings.Repeat("v", 6000) + " :n!u@h PRIVMSG me :hi", strings.Repeat("A", 4095), strings.Repeat("B", 4096), strings.Repeat("C", 4097), ":x " + strings.Repeat(" ", 5000)}
+	for i := 0; i < len(inputs) && sent < limit; i += batch {
+		var sb strings.Builder
+		k := 0
+		for j := i; j < i+batch && j < len(inputs); j++ {
+			l := inputs[j]
+			if strings.ContainsAny(l, "\r\n") {
+				continue
+			}
+			sb.WriteString(l)
+			sb.WriteString("\r\n")
+			k++
+		}
+		if (i/batch)%5 == 0 {
+			sb.WriteString(extra[(i/batch/5)%len(extra)])
+			sb.WriteString("\r\n")
+		}
+		first := inputs[i]
+		c.Journal(fmt.Sprintf("C02 stream: batch of %d lines starting with %q", k, trunc(first, 60)))
+		sess.srv.Send(sb.String())
+		sent += k
+		c.Res.Evaluations++
+		if !sess.sync(20 * time.Second) {
+			c.SpecFail("spec", fmt.Sprintf("stream batch of %d lines starting with %q", k, trunc(first, 60)), "", "after this batch the client no longer answers (PING sync marker unanswered): later lines are not processed",
+				map[string]interface{}{"op": "line-stream", "first_line_hex": drv.H(first), "batch": k})
+			return
+		}
+	}
+	c.Res.Traces++
+	c.Dist("stream-lines-survived")
+}
+
 func c02(c *Ctx) {
 	inputs := c02Inputs(c)
+	c02Stream(c, inputs)
 	for i := 0; i < len(inputs); i += 20000 {
 		j := i + 20000
 		if j > len(inputs) {
